@@ -6,10 +6,10 @@ claimed = {
  "C01": ("exploration", "fs-history", "7.1", "Seeded simulated histories (interleaved open/seek/read/write/flush/close over up to MAX_FILES files and up to 3 volumes, three API flavours incl. embedded-io) run against the real library on a simulated block device in lock-step with a byte-array reference model; every read, length, offset, EOF and seek result is compared; one case in 64 is a huge-file history (2 GiB .. 4 GiB-1 file, offsets across 2^31 and the size limit; model = formatted medium + overlay of written blocks). Sampling of histories and geometries, not enumeration."),
  "C02": ("exploration", "fs-history", "7.2", "Seeded histories with a moving simulated clock; at quiescent points and at the end the raw medium is read by an independent FAT reader and by a fresh mount of the library and compared with the model (names, kinds, sizes, contents, ctime, mtime, untouched entries/chains byte for byte)."),
  "C03": ("exploration", "fs-history", "7.3", "Independent fsck over the raw medium after every API call that wrote (success or error), including the pending chains/sizes of open files; workload biased to volumes with 0..64 free clusters and small FAT16 roots."),
- "C04": ("exploration", "fs-history", "7.4", "Monitor on every BlockDevice::write with its pre-image: region classification from the independent geometry, byte diff confined to the call's file range / newly allocated clusters / owned directory slot / FAT entries of its chains; refused and read-only calls must not change a byte."),
- "C05": ("exploration", "fs-history", "7.5", "Ground-truth FAT scan vs. reachable set after every writing call (leaks reported when they grow), and a capacity oracle: a call must succeed when the needed clusters are free and report out-of-space when they are not; fill/delete/refill arises from the Space-biased workload."),
- "C06": ("exploration", "fs-history", "7.6", "Every iterate_dir / find_directory_entry / open_dir result in simulated histories over formatter-built trees (LFN runs, deleted slots, multi-cluster and fragmented directories, FAT16 roots of 16..512 entries, FAT32 roots anywhere) is compared entry by entry with the independent reader's view of the same medium and, by name, with what the history made (model); half of the cases are generated / corrupted directory media (dir-media engine)."),
- "C07": ("exploration", "fs-history", "7.7", "Mode matrix model: for every open/delete/mkdir/open_dir the set of acceptable results is computed from the model state (missing, file, read-only file, directory, already open, invalid 8.3 name); a refused call must leave the medium byte-identical."),
+ "C04": ("exploration", "fs-history", "7.4", "Monitor on every BlockDevice::write with its pre-image: region classification from the independent geometry, byte diff confined to the call's file range / newly allocated clusters / owned directory slot / FAT entries of its chains; refused and read-only calls must not change a byte. One case in 16 goes to the mount engine: a FAT32 medium whose information sector (or BPB_FSInfo) is damaged; if it mounts, creating and writing a file may write only FAT blocks, the root directory, clusters that were free and the formatter's information sector."),
+ "C05": ("exploration", "fs-history", "7.5", "Ground-truth FAT scan vs. reachable set after every writing call (leaks reported when they grow), and a capacity oracle: a call must succeed when the needed clusters are free and report out-of-space when they are not; fill/delete/refill arises from the Space-biased workload. One case in 256 deletes a file of 32768..262144 clusters (huge-file engine): every cluster must be free afterwards."),
+ "C06": ("exploration", "fs-history", "7.6", "Every iterate_dir / find_directory_entry / open_dir result in simulated histories over formatter-built trees (LFN runs, deleted slots, multi-cluster and fragmented directories, FAT16 roots of 16..512 entries, FAT32 roots anywhere) is compared entry by entry with the independent reader's view of the same medium and, by name, with what the history made (model); half of the cases are generated / corrupted directory media (dir-media engine). In one directory-media case in four the directory is first listed while the device serves an older state of the medium, then the current state appears and the caller goes through VolumeManager::device(): every answer must come from the medium."),
+ "C07": ("exploration", "fs-history", "7.7", "Mode matrix model: for every open/delete/mkdir/open_dir the set of acceptable results is computed from the model state (missing, file, read-only file, directory, already open, invalid 8.3 name); a refused call must leave the medium byte-identical. One case in 64 has two directory entries exactly 4 GiB apart with the file of one of them open: the other file must open and delete (huge-file engine)."),
  "C08": ("exploration", "fs-history", "7.8", "Handle-table model over 16 compiled limit configurations covering 1..8 of each kind, id counters that wrap inside the run, bursts of up to 70000 handle generations with objects held open, stale-handle use of every handle-taking method, and every Result-returning public method called re-entrantly from directory callbacks."),
  "C16": ("exploration", "fs-history", "7.16", "After every call the FAT sectors written are compared across copies; after flush/close of a written file and after close_volume the stored FSInfo free count must have moved by exactly the ground-truth change since mount; volumes start with correct, unknown, stale-low, zero, stale-high and bad-hint records."),
 }
@@ -64,11 +64,11 @@ m = {
  },
  "engines": [
    {"name": "fs-history", "path": "/verif/sim", "serves_properties": ["C01","C02","C03","C04","C05","C06","C07","C08","C16"], "kind_free_text": "seeded deterministic simulation of API histories on SimDisk/SimClock with reference model, independent reader and write-log monitors"},
-   {"name": "fs-huge", "path": "/verif/sim", "serves_properties": ["C01"], "kind_free_text": "seeded histories on one 2 GiB .. 4 GiB-1 file (sparse medium + overlay model), part of the C01 batch"},
+   {"name": "fs-huge", "path": "/verif/sim", "serves_properties": ["C01","C05","C07"], "kind_free_text": "seeded histories on one 2 GiB .. 4 GiB-1 file (sparse medium + overlay model): one C01 case in 64; one C07 case in 64 (two directory entries 4 GiB apart); one C05 case in 256 (the file is deleted at the end)"},
    {"name": "fs-crash", "path": "/verif/sim", "serves_properties": ["C09","C10"], "kind_free_text": "write-log prefix (power-cut) enumeration over simulated histories"},
    {"name": "fs-fault", "path": "/verif/sim", "serves_properties": ["C11"], "kind_free_text": "per-device-call fault enumeration over simulated histories"},
    {"name": "dir-media", "path": "/verif/sim", "serves_properties": ["C06","C17"], "kind_free_text": "generated / corrupted directory media read through the block-device seam"},
-   {"name": "mount", "path": "/verif/sim", "serves_properties": ["C15"], "kind_free_text": "independent formatter geometries and stored-byte corruption of MBR / boot sector / FSInfo at mount"},
+   {"name": "mount", "path": "/verif/sim", "serves_properties": ["C15","C04"], "kind_free_text": "independent formatter geometries and stored-byte corruption of MBR / boot sector / FSInfo at mount, medium exchange before the mount; one C04 case in 16: writing after a mount with a damaged information sector"},
 ]+[{"name": "sd-sim", "path": "/verif/sim", "serves_properties": ["C12","C13","C14"], "kind_free_text": "real SdCard driver against a byte-level simulated SD card on a simulated SPI bus with latency tape, adversary and protocol checker"},
  ] + EXTRA_ENGINES,
  "checks": checks,
